@@ -11,7 +11,11 @@ from simkit import kernel as K
 from models import corpus, tables as T
 from worlds.thread_world import restore_defaults, shipped_defaults
 
-EC_SETS = corpus.ECS
+# default delimiter sets the configurator may install.  Index 4 uses characters that DO occur in
+# generated values (".", digits): it is only drawn for calls whose every parse is rooted in a message
+# or in explicit encoding_chars (a parent-less element legitimately parses with the defaults).
+EC_SETS = list(corpus.ECS) + [{'FIELD': '|', 'COMPONENT': '.', 'SUBCOMPONENT': '0', 'REPETITION': '2', 'ESCAPE': '\\',
+                               'SEGMENT': '\r', 'GROUP': '\r'}]
 
 
 def apply_flip(f):
